@@ -91,6 +91,23 @@ def run(ctx):
         check_start(ctx, prog, nxt[0][0])
 
 
+def emptiness_helper(prog, call):
+    """a list type's own `is_empty` is held to what its name says: None if it returns `buffer.is_empty()` / `buffer.len() == 0`"""
+    tgt = prog.resolve(call)
+    if tgt is None:
+        return None          # std's
+    for rv in tgt.body.ret_val.values():
+        rv = strip(rv)
+        if rv.kind == 'call' and rv.callee_name() == 'is_empty' and prog.resolve(rv) is None:
+            continue
+        if rv.kind == 'bin' and rv.args[0] == 'Eq':
+            x, y = strip(rv.args[1]), strip(rv.args[2])
+            if any(p.kind == 'call' and p.callee_name() == 'len' and q.is_const(0) for p, q in ((x, y), (y, x))):
+                continue
+        return 'the emptiness test of the lists (%s) is not `buffer.is_empty()` / `len() == 0` (it returns %s): a list it calls empty although it holds entries is skipped by every query' % (tgt.name, show(rv, 3))
+    return None
+
+
 def check_start(ctx, prog, nxt):
     """the iterator's FIRST place also comes out of the bit iterator: the constructor stores the place helper's result into the
     place cursor on every path (a literal start place is scanned without being taken off the mask - so it is scanned again when
@@ -211,6 +228,24 @@ def check_insert(ctx, prog, fn):
                 problems.append('the copy is not pushed into the list selected by the current bit')
             if ents and strip(p.args[1]) is not ents[0]:
                 problems.append('the value pushed is not the entity carrying the place mask')
+            # through a helper of the list type (`Chunk::insert`): the helper pushes its parameter exactly once on every path
+            hp = prog.resolve(p)
+            if hp is not None and not hp.is_closure:
+                from rules.pool import release_counts
+                hb = hp.body
+                hpush = [c for c in hb.calls if prog.classify(c) == 'std' and c.callee_name() in ('push', 'insert', 'extend', 'push_within_capacity') and c.args]
+                per_block = {}
+                for c in hpush:
+                    per_block[c.point[0]] = per_block.get(c.point[0], 0) + 1
+                counts = release_counts(hb, per_block)
+                for ret in hb.cfg.returns:
+                    cs = counts.get(ret, {0})
+                    if cs != {1}:
+                        problems.append('%s stores %s copies per call depending on the path; exactly one copy per selected list is expected' % (hp.name, sorted(cs)))
+                        break
+                for c in hpush:
+                    if len(c.args) >= 2 and strip(c.args[-1]).kind != 'param' and c.callee_name() == 'push':
+                        problems.append('%s pushes %s, not the copy it was given' % (hp.name, show(strip(c.args[-1]), 2)))
             loops = b.cfg.loops()
             inl = [h for h, body in loops.items() if p.point[0] in body and nexts[0].point[0] in body]
             if not inl:
@@ -574,6 +609,10 @@ def check_find_next(prog, fn):
                 d = strip(d.args[1])
                 neg = not neg
             if d.kind == 'call' and d.callee_name() == 'is_empty' and derives(d, n):
+                why_e = emptiness_helper(prog, d)
+                if why_e:
+                    problems.append(why_e)
+                    continue
                 t = b.mir['blocks'][s0]['term']
                 for succ in set(cfg.succ[s0]):
                     tr = edge_truth(t, succ)
